@@ -1559,19 +1559,6 @@ fn forward_device_data(
     }
 
     let broker_topic_aliases = &mut connection.broker_topic_aliases;
-    let mut topic_alias = broker_topic_aliases
-        .as_ref()
-        .and_then(|aliases| aliases.get_alias(&request.filter));
-
-    let topic_alias_already_exists = topic_alias.is_some();
-
-    // if topic alias doesn't exists, try creating new one!
-    if !topic_alias_already_exists {
-        topic_alias = broker_topic_aliases
-            .as_mut()
-            .and_then(|broker_aliases| broker_aliases.set_new_alias(&request.filter))
-    }
-
     let subscription_id = connection.subscription_ids.get(&request.filter);
 
     // Fill and notify device data
@@ -1580,16 +1567,29 @@ fn forward_device_data(
         .map(|((mut publish, mut properties), offset)| {
             publish.qos = protocol::qos(qos).unwrap();
 
-            // if there is some topic alias to use, set it in publish properties
-            if topic_alias.is_some() {
-                let mut props = properties.unwrap_or_default();
-                props.topic_alias = topic_alias;
-                properties = Some(props);
-            }
+            // A topic alias stands for one topic name (not for a subscription filter, which
+            // may match many topics): use the alias of this publish's topic if it has one,
+            // otherwise try to establish a new one, sending the topic along with it.
+            if let Some(broker_aliases) = broker_topic_aliases.as_mut() {
+                if let Ok(topic) = std::str::from_utf8(&publish.topic) {
+                    let (topic_alias, topic_alias_already_exists) =
+                        match broker_aliases.get_alias(topic) {
+                            Some(alias) => (Some(alias), true),
+                            None => (broker_aliases.set_new_alias(topic), false),
+                        };
 
-            // We want to clear topic if we are using an existing alias
-            if topic_alias_already_exists {
-                publish.topic.clear()
+                    // if there is some topic alias to use, set it in publish properties
+                    if topic_alias.is_some() {
+                        let mut props = properties.unwrap_or_default();
+                        props.topic_alias = topic_alias;
+                        properties = Some(props);
+                    }
+
+                    // We want to clear topic if we are using an existing alias
+                    if topic_alias_already_exists {
+                        publish.topic.clear()
+                    }
+                }
             }
 
             if let Some(&subscription_id) = subscription_id {
